@@ -75,6 +75,10 @@ class CustomStepsQuotes(OnlyCustom):
         self.sink.append(("Q", id(event), event.time, None))
 
 
+class LateCustom(OnlyCustom):
+    """Same subscriptions as OnlyCustom under another feature name (feature names must be unique within a state)."""
+
+
 A = ETF("A")
 B = ETF("B")
 
